@@ -301,6 +301,11 @@ class BzrUploader:
         Returns:
             bool: True if the path should be ignored, False otherwise.
         """
+        if relpath in (".bzrignore", ".bzrignore-upload"):
+            # .bzrignore and .bzrignore-upload have no meaning outside a
+            # working tree: a full upload never sends them, so an incremental
+            # one must not expect (or create) them on the remote side either.
+            return True
         glob = self._get_ignored()
         ignored = glob.match(relpath)
         import os
@@ -617,7 +622,15 @@ class BzrUploader:
                 else:
                     raise NotImplementedError
 
+            renamed_from_ignored = []
             for change in changes.renamed:
+                if self.is_ignored(change.path[0]) and not self.is_ignored(
+                    change.path[1]
+                ):
+                    # The old path was never uploaded, so there is nothing to
+                    # rename on the remote side: upload the new path instead.
+                    renamed_from_ignored.append(change)
+                    continue
                 if self.is_ignored(change.path[0]) and self.is_ignored(change.path[1]):
                     if not self.quiet:
                         self.outf.write(f"Ignoring {change.path[0]}\n")
@@ -656,7 +669,7 @@ class BzrUploader:
                 else:
                     raise NotImplementedError
 
-            for change in changes.added + changes.copied:
+            for change in changes.added + changes.copied + renamed_from_ignored:
                 if self.is_ignored(change.path[1]):
                     if not self.quiet:
                         self.outf.write(f"Ignoring {change.path[1]}\n")
